@@ -240,9 +240,10 @@ def main():
         "checks": checks,
         "notes": "All checks: exit 0 = every rule instance holds; exit 1 + 'VIOLATION property=<id> replay=<path>' = a recognised "
                  "construct deviates; exit 2 + 'ANALYSIS-ERROR ...' = anchor vanished / idiom not recognised (never a VIOLATION "
-                 "line). Six genuine defects were repaired in /repo with 'fix:' commits; one more (C08, join of multi-segment "
-                 "records) is recorded un-repaired as a known finding: its check prints a KNOWN-FINDING line and exits 0 (see "
-                 "known_findings.json and DESIGN.md section 5).",
+                 "line). Seven genuine defects were repaired in /repo with 'fix:' commits (F1-F7); two more (K1: C08, join of "
+                 "multi-segment records; K2: C01, a chain member emptied by conflict resolution shields its neighbours) are recorded "
+                 "un-repaired as known findings: their checks print a KNOWN-FINDING line and exit 0 (see known_findings.json and "
+                 "DESIGN.md section 5).",
         "not_applicable": na,
     }
     with open(os.path.join(VERIF, "MANIFEST.json"), "w") as f:
